@@ -1,8 +1,9 @@
 // ---- shared spec vocabulary of the orchestration contracts (definitions only, no assumptions
 // except the `uninterp` functions, which stand for facts decided elsewhere or by OpenMLS) ----
 
-// result of MDK::is_pure_self_update_commit — OUT OF REACH (iterator closures over OpenMLS objects):
-// the whitelist itself is unverified, its result is an uninterpreted function of (commit, leaf)
+// result of MDK::is_pure_self_update_commit: uninterpreted in the orchestration units; its definition
+// (C05: "does nothing but refresh its author's own key material") is pure_self_update_def below,
+// proved equal to the real function's result in unit pure_self_update
 pub uninterp spec fn pure_self_update(c: StagedCommit, i: LeafNodeIndex) -> bool;
 // C05 decision table, taken from the property text: the author must be a member, and either an
 // admin of the current epoch (admin set read from the MLS group context) or doing nothing but
